@@ -23,6 +23,10 @@ CONSTANTS Codecs,     \* subset of {"h264","h265","mpeg4","av1"}
           MaxNALs,    \* tokens per unit
           MaxNALs265, \* tokens per unit for h265 (its alphabet is the largest)
           EmitLen,    \* sequences of this length are printed as cases
+          DevOfflineRestartKeepsParams,
+                      \* named deviation, FALSE = the current code.  TRUE: when the offline sub stream of an always-available
+                      \* stream is restarted it does not write its description's parameter sets into the stream, so the
+                      \* departed publisher's sets stay current
           DevH265UpdaterComparesStored
                       \* named deviation, FALSE = the current code.  TRUE = the H.265 updater as it was before the
                       \* fix of finding C22-F1: each in-band VPS/SPS/PPS is compared with the value stored in the
@@ -34,12 +38,16 @@ Alphabet(c) ==
       [] c = "mpeg4" -> {"config_a", "config_b", "GOV", "VOP"}
       [] c = "av1"   -> {"TD", "OBU_a", "OBU_b"}
 
-ParamTokens == {"VPS_a", "VPS_b", "SPS_a", "SPS_b", "PPS_a", "PPS_b"}
-Kind(t) == CASE t \in {"VPS_a", "VPS_b"} -> "vps" [] t \in {"SPS_a", "SPS_b"} -> "sps" [] t \in {"PPS_a", "PPS_b"} -> "pps"
+\* parameter set values: a, b (publishers) and o (the sets of an always-available stream's own description,
+\* which its built-in offline sub stream feeds; they only occur by value, never in a generated unit)
+ParamTokens == {"VPS_a", "VPS_b", "VPS_o", "SPS_a", "SPS_b", "SPS_o", "PPS_a", "PPS_b", "PPS_o"}
+Kind(t) == CASE t \in {"VPS_a", "VPS_b", "VPS_o"} -> "vps" [] t \in {"SPS_a", "SPS_b", "SPS_o"} -> "sps"
+             [] t \in {"PPS_a", "PPS_b", "PPS_o"} -> "pps"
 Val(t)  == CASE t \in {"VPS_a", "SPS_a", "PPS_a", "config_a"} -> "a" [] t \in {"VPS_b", "SPS_b", "PPS_b", "config_b"} -> "b"
-ParamTok(kind, v) == CASE kind = "vps" -> (IF v = "a" THEN "VPS_a" ELSE "VPS_b")
-                       [] kind = "sps" -> (IF v = "a" THEN "SPS_a" ELSE "SPS_b")
-                       [] kind = "pps" -> (IF v = "a" THEN "PPS_a" ELSE "PPS_b")
+             [] t \in {"VPS_o", "SPS_o", "PPS_o"} -> "o"
+ParamTok(kind, v) == CASE kind = "vps" -> (CASE v = "a" -> "VPS_a" [] v = "b" -> "VPS_b" [] v = "o" -> "VPS_o")
+                       [] kind = "sps" -> (CASE v = "a" -> "SPS_a" [] v = "b" -> "SPS_b" [] v = "o" -> "SPS_o")
+                       [] kind = "pps" -> (CASE v = "a" -> "PPS_a" [] v = "b" -> "PPS_b" [] v = "o" -> "PPS_o")
 Kinds(c)     == IF c = "h264" THEN <<"sps", "pps">> ELSE <<"vps", "sps", "pps">>
 KeyTokens(c) == IF c = "h264" THEN {"IDR"} ELSE {"IDR", "CRA"}
 ConfigTokens == {"config_a", "config_b"}
@@ -163,6 +171,30 @@ L2OutOK(c, s, au, k, out) ==
       [] c = "mpeg4" -> AcceptMPEG4(s, au, k, out)
       [] c = "av1" -> AcceptAV1(au, k, out)
 L2DescOK(c, s, au, d) == c \in {"h264", "h265"} => DescH26x(c, s, au, d)
+
+\* ------------------------------------------------------------------ sub-stream phases of an always-available stream
+\* A persistent stream is fed by one sub stream after the other: its built-in offline filler, a publisher, the
+\* filler again, another publisher ...  A phase is [kind |-> "offline" | "pub", desc |-> "o" | "none" | "a" | "b"
+\* (the parameter sets in the sub stream's description), aus |-> the units a publisher writes].
+\* "injects the CURRENT parameters": current = the sets of the description of the sub stream that is feeding,
+\* updated by the in-band sets seen in that phase (a description without sets changes nothing).
+OfflinePS(c) == [vps |-> IF c = "h265" THEN "o" ELSE "none", sps |-> "o", pps |-> "o"]
+DescPS(c, d) == [vps |-> IF c = "h265" THEN d ELSE "none", sps |-> d, pps |-> d]
+L2PhaseStart(c, ps, ph) ==
+    IF ph.kind = "offline" THEN OfflinePS(c) ELSE IF ph.desc = "none" THEN ps ELSE DescPS(c, ph.desc)
+\* as coded: subStreamFormat.initialize2 writes the description's sets as a unit (if it has all of them)
+L1PhaseStart(c, ps, ph, first) ==
+    IF ph.kind = "offline" /\ ~first /\ DevOfflineRestartKeepsParams THEN ps ELSE L2PhaseStart(c, ps, ph)
+\* a unit of the offline filler as delivered (its input is not known to the harness): parameter sets may only
+\* stand in front, and in front of a key frame they are the current ones
+AcceptFiller(c, ps, f) ==
+    LET isP(i) == i.t \in ParamTokens
+        n == Cardinality({i \in 1..Len(f) : \A j \in 1..i : isP(f[j])})      \* length of the leading run of parameter sets
+        pre == SubSeq(f, 1, n)
+        rest == SubSeq(f, n + 1, Len(f))
+        key == \E i \in 1..Len(rest) : rest[i].t \in KeyTokens(c)
+    IN /\ \A i \in 1..Len(rest) : ~isP(rest[i])
+       /\ IF key THEN PrefixOK(c, ps, pre) ELSE pre = <<>>
 
 \* ------------------------------------------------------------------ bounded model: all sequences
 VARIABLES codec, init, aus
